@@ -37,6 +37,14 @@ let cmd_taptree t =
       match r with
       | Some c -> cb_root_c c e.pe_leaf.tlf_script = rooth && verify_with_oracle c qx qx qodd
       | None -> false) vers in
+    (* the same leaves with the control block as built in memory (leaf version unmasked, also
+       when it is odd), and with a forged block whose leaf version differs in bit 0 only *)
+    let mems = Stdlib.List.filteri (fun i _ -> pick i) (Stdlib.List.map2 (fun (e : proof_entry) c -> (e, c)) st cbs) in
+    let mem = Stdlib.List.map (fun ((e : proof_entry), c) ->
+      cb_root_c c e.pe_leaf.tlf_script = rooth && verify_with_oracle c qx qx qodd) mems in
+    let flip = Stdlib.List.map (fun ((e : proof_entry), c) ->
+      let c' = { c with cb_version = byte_tbl.((int_of_byte c.cb_version) lxor 1) } in
+      cb_root_c c' e.pe_leaf.tlf_script = rooth && verify_with_oracle c' qx qx qodd) mems in
     let kv = match leaves, cbs with
       | l :: _, c :: _ when l.tlf_script <> [] ->
         let (k, v) = tapleaf_kv l c in
@@ -45,9 +53,11 @@ let cmd_taptree t =
           | KvErr -> "err" | KvPanic -> "panic") in
         Printf.sprintf "kvk=%s kvv=%s kvrt=%s" (hex_of_bytes k) (hex_of_bytes v) back
       | _ -> "kvk=- kvv=- kvrt=-" in
-    Printf.printf "res=ok root=%s cbs=%s rt=%s ver=%s %s\n" (hex_of_bytes rooth)
+    Printf.printf "res=ok root=%s cbs=%s rt=%s ver=%s mem=%s flip=%s %s\n" (hex_of_bytes rooth)
       (Stdlib.String.concat "," (Stdlib.List.map hex_of_bytes sers))
-      (b2s rt) (Stdlib.String.concat "" (Stdlib.List.map b2s vers)) kv
+      (b2s rt) (Stdlib.String.concat "" (Stdlib.List.map b2s vers))
+      (Stdlib.String.concat "" (Stdlib.List.map b2s mem))
+      (Stdlib.String.concat "" (Stdlib.List.map b2s flip)) kv
 
 (* tapcb <cb bytes> <script> <program> <qx> <qodd>
    qx/qodd: output key of (key in cb, root) as computed by the curve library, "-"/0 if the
